@@ -486,6 +486,7 @@ impl Property for C06 {
             "in_flight_message_with_heap",
             "slot_reused_after_reclaim",
             "repl_compaction_with_heap_locals",
+            "terminated_process_holds_no_storage",
         ]
     }
     fn draw_cfg(&self, rng: &mut Rng, scn: &Scenario) -> crate::world::RunCfg {
@@ -705,6 +706,38 @@ impl Monitor for HeapMonitor {
             if !reachable.contains(&idx) && !hv.freed[idx] && !pending.contains(&idx) {
                 return Some(Violation::new(prop, "leak", "unreachable-slot-never-queued", format!("worker {wi}: heap slot {idx} is unreachable, not reclaimed and not queued for reclamation (count {})", hv.refcounts[idx]), world.steps));
             }
+        }
+        // (6) a terminated process (failed, or finished and not persistent) can be observed only through
+        // its result: binaries in its stack, locals, unread mail, unfinished select or awaited results are
+        // reachable by no program and must not stay counted (the executor's own oracle walks dead
+        // processes too, so rule (1) cannot see this)
+        for pid in ex.verif_process_ids() {
+            let Some(p) = ex.get_process(pid) else { continue };
+            let terminated = match &p.result {
+                Some(Err(_)) => true,
+                Some(Ok(_)) => !p.persistent,
+                None => false,
+            };
+            if !terminated {
+                continue;
+            }
+            let pinned_by = if p.stack.iter().any(has_heap) {
+                Some("operand stack")
+            } else if p.locals.iter().any(has_heap) {
+                Some("locals")
+            } else if p.mailbox.iter().any(has_heap) {
+                Some("unread mail")
+            } else if p.select_state.as_ref().is_some_and(|s| s.sources.iter().any(has_heap) || s.receiving.as_ref().is_some_and(|(_, m)| has_heap(m))) {
+                Some("unfinished select")
+            } else if p.awaiting.values().flatten().any(has_heap) {
+                Some("awaited results")
+            } else {
+                None
+            };
+            if let Some(what) = pinned_by {
+                return Some(Violation::new(prop, "leak", "terminated-process-pins-storage", format!("worker {wi}: process {pid} has terminated ({}) but its {what} still hold heap binaries that nothing can reach", if matches!(p.result, Some(Err(_))) { "failed" } else { "finished" }), world.steps));
+            }
+            self.probe("terminated_process_holds_no_storage");
         }
         // (3) shadow copy of live slots
         for r in &reachable {
